@@ -40,6 +40,7 @@ def _gate_classes(repo):
 def run(ctx):
     repo = ctx.repo
     _sibling_constructions(ctx, repo)
+    _common_unit(ctx, repo)
     _exhaustive_match(ctx, repo)
     ctx.decided += [
         'C16.a gate kinds: writer fields within the schema, every schema kind has reader and writer, class written == class rebuilt, '
@@ -1627,3 +1628,51 @@ def _exhaustive_match(ctx, repo):
                        f'`match {ast.unparse(st.subject)[:40]}` has no default arm and nothing after it: an alternative that is not listed is silently skipped', m.rel, st.lineno)
     if n == 0:
         raise AnalysisError('C16.s: no match statements in the conversion code')
+
+
+def _common_unit(ctx, repo):
+    """C16.t - numbers written next to a unit are magnitudes in that unit."""
+    ctx.decided.append('C16.t sweep writer: where one unit is written for several unit-carrying values (unit.to_proto(<msg>.unit)), every number stored into the other fields of that message '
+                       'in the same branch is the magnitude in that unit (<value>[unit]), not in the value\'s own unit')
+    ctx.rule('C16.t', 'one unit for all numbers: in cirq_google.api.v2.sweeps, for every `U.to_proto(M.unit)` the stores into float / double fields of M in the same branch (assignments and '
+             '.extend(...) of generator elements) are subscripts `<expr>[U]`; `.value` (the magnitude in the value\'s own unit) or a bare unit-carrying value would be read back in the '
+             'wrong unit when start and stop (or the points) are written in different units', floor=4, style='WR')
+    m = repo.module('cirq-google/cirq_google/api/v2/sweeps.py')
+    par = m.parents()
+    n = 0
+    for fn in [f for f in ast.walk(m.tree) if isinstance(f, ast.FunctionDef)]:
+        for c in ast.walk(fn):
+            if not (isinstance(c, ast.Call) and isinstance(c.func, ast.Attribute) and c.func.attr == 'to_proto' and isinstance(c.func.value, ast.Name) and len(c.args) == 1
+                    and isinstance(c.args[0], ast.Attribute) and c.args[0].attr == 'unit'):
+                continue
+            U = c.func.value.id
+            M = ast.unparse(c.args[0].value)
+            # the block that holds the to_proto statement
+            st = c
+            while st in par and not isinstance(st, ast.stmt):
+                st = par[st]
+            owner = par.get(st)
+            blk = None
+            for fld in ('body', 'orelse'):
+                b = getattr(owner, fld, None)
+                if isinstance(b, list) and st in b:
+                    blk = b
+            if blk is None:
+                raise AnalysisError(f'C16.t: block of `{ast.unparse(c)}` not found')
+            for s_ in [x for b_ in blk for x in ast.walk(b_)]:
+                val = tgt = None
+                if isinstance(s_, ast.Assign) and len(s_.targets) == 1 and isinstance(s_.targets[0], ast.Attribute) and ast.unparse(s_.targets[0].value) == M:
+                    tgt, val = s_.targets[0].attr, s_.value
+                elif isinstance(s_, ast.Call) and isinstance(s_.func, ast.Attribute) and s_.func.attr in ('extend', 'append') and isinstance(s_.func.value, ast.Attribute) \
+                        and ast.unparse(s_.func.value.value) == M and s_.args:
+                    tgt = s_.func.value.attr
+                    val = s_.args[0].elt if isinstance(s_.args[0], (ast.GeneratorExp, ast.ListComp)) else s_.args[0]
+                if tgt is None or not ('point' in tgt or 'value' in tgt) or tgt.startswith('num_'):
+                    continue
+                n += 1
+                ok = isinstance(val, ast.Subscript) and isinstance(val.slice, ast.Name) and val.slice.id == U
+                ctx.ob('C16.t', f'{m.name}.{fn.name}:{M}.{tgt}', ok, '' if ok else
+                       f'`{ast.unparse(s_)[:90]}` is written next to the unit `{U}` but is not the magnitude in that unit (`<value>[{U}]`): a value given in another unit '
+                       '(stop=2*us with start=500*ns) is read back in the wrong unit', m.rel, s_.lineno)
+    if n == 0:
+        raise AnalysisError('C16.t: no number written next to a unit found')
